@@ -791,8 +791,10 @@ Definition check_160 (kind : Z) (timeout : N) (prior msg obs : list Z) : verdict
     (* the model reports nothing for the message, and continues identically with or without it *)
     let out := run_enc kind timeout false prior msg in
     let m_none := forallb (fun z => Z.eqb z ZNONE) out in
-    let model := [zb m_none; 1] in
-    verdict_of obs model [1; 1].
+    (* third observation: the rest of the stream is reported identically with and without the
+       message (in the model this follows from the equality of the states) *)
+    let model := [zb m_none; 1; 1] in
+    verdict_of obs model [1; 1; 1].
 
 (** tag 161: the ControllerNumber predicates, and whether each scanner reacts to the controller *)
 Definition check_161 (n : N) (obs : list Z) : verdict :=
@@ -1204,8 +1206,9 @@ Definition check (tag : Z) (inp obs : list Z) : verdict :=
   | 150, kind :: timeout :: nch :: c1 :: c2 :: c3 :: ops =>
       check_150 (ctor_kind kind) (ctor_timeout kind timeout) (firstn (Z.to_nat nch) [nz c1; nz c2; nz c3]) ops obs
   | 160, kind :: timeout :: nprior :: rest =>
-      let '(prior, msg) := take_ops (Z.to_nat nprior) rest in
-      check_160 (ctor_kind kind) (ctor_timeout kind timeout) prior msg obs
+      let '(prior, rest') := take_ops (Z.to_nat nprior) rest in
+      (* the message (one operation), then the rest of the stream *)
+      check_160 (ctor_kind kind) (ctor_timeout kind timeout) prior (firstn 4 rest') obs
   | 161, [n] => check_161 (nz n) obs
   | 162, [idx] => check_162 (Z.to_nat idx) obs
   | 190, tidx :: j =>
